@@ -61,6 +61,26 @@ def check_tensor(t, line, fmt, packed, items, dok, what):
     want_dok = {tuple(c): fl(v) for c, v in dok}
     expect(t.to_dok() == want_dok, f"{what}: to_dok {t.to_dok()} != {want_dok}")
     expect(t.to_dok(explicit_zeros=True) == dict(want_items), f"{what}: to_dok(explicit_zeros) {t.to_dok(explicit_zeros=True)}")
+    # what an accessor returned belongs to the caller: editing it must not change what the tensor says afterwards
+    for getter in (lambda: t.to_dok(explicit_zeros=True), lambda: t.to_dok(), lambda: t.taco_vals, lambda: t.taco_indices):
+        got = getter()
+        if isinstance(got, dict):
+            got.clear()
+            got[tuple(9 for _ in dims)] = 99.0
+        else:
+            def scramble(x):
+                for i_, y in enumerate(x):
+                    if isinstance(y, list):
+                        scramble(y)
+                    else:
+                        x[i_] = 77
+                x.append(78)
+            scramble(got)
+    expect(t.to_dok() == want_dok and t.to_dok(explicit_zeros=True) == dict(want_items),
+           f"{what}: to_dok changed after a previously returned result was edited: {t.to_dok(explicit_zeros=True)}")
+    expect(t.taco_indices == levels(packed["levels"]) and t.taco_vals == [fl(v) for v in packed["vals"]],
+           f"{what}: taco_indices/taco_vals changed after a previously returned result was edited")
+    expect(sorted((tuple(c), v) for c, v in t.items()) == want_items, f"{what}: items changed after a previously returned result was edited")
     # comparison, printing and scalar conversion go through the same read-back
     from tensora import Tensor
 
